@@ -820,8 +820,8 @@ class Dict(dict, base.Symbolic, pg_typing.CustomTyping):
 
     if value_spec:
       # The defaults are filled in by this method itself, not through the
-      # accessors of the caller.
-      with flags.allow_writable_accessors(True):
+      # accessors of the caller; the whole call is notified once, below.
+      with flags.allow_writable_accessors(True), flags.notify_on_change(False):
         self.use_value_spec(value_spec, self._allow_partial)
     if flags.is_change_notification_enabled():
       schema = value_spec.schema if value_spec else None
